@@ -85,6 +85,46 @@ def zeroGrad (st : TState α) (i : Nat) : Option (TState α) :=
   | some n => some { st with g := setGrad st.g i (some n.zero) }
   | none => none
 
+/-- `t.grad = g` (the property setter): `matches_shape` compares rank and every extent; on success the
+    buffer IS the caller's array (whatever was there before is dropped).  `none` = the setter raises. -/
+def assignGrad (st : TState α) (i : Nat) (g : NDArray α) : Option (TState α) :=
+  match st.g[i]?, st.vals[i]? with
+  | some _, some v => if v.shape != g.shape then none else some { st with g := setGrad st.g i (some g) }
+  | _, _ => none
+
+/-! ### tensors made from tensors without an op: `detach`, `Tensor(t.data, …)`, `Tensor(t)`, `t.grad` -/
+
+/-- `t.detach()` : `Tensor(self.data.copy(), requires_grad=False)` — a fresh leaf, whatever the source holds -/
+def detach (st : TState α) (i : Nat) : Option (TState α × Nat) :=
+  match st.vals[i]?, st.dtypes[i]? with
+  | some v, some dt => mkTensor st v dt false [] none
+  | _, _ => none
+
+/-- `Tensor(t.data, requires_grad=rg)` (the `.data` round trip): the leaf-creation rule over the source's array -/
+def fromData (st : TState α) (i : Nat) (requiresGrad : Bool) : Option (TState α × Nat) :=
+  match st.vals[i]?, st.dtypes[i]? with
+  | some v, some dt => newLeaf st v dt requiresGrad
+  | _, _ => none
+
+/-- `Tensor(t)` (the copy constructor, `copy_from`): every attribute of the source, as it is at that moment —
+    flags, operands, backward function, retain mark, gradient buffer; the mode and the other constructor
+    arguments are not looked at -/
+def copyTensor (st : TState α) (i : Nat) : Option (TState α × Nat) :=
+  match st.g[i]?, st.vals[i]?, st.dtypes[i]? with
+  | some n, some v, some dt =>
+    some ({ st with g := st.g ++ [n], vals := st.vals ++ [v], dtypes := st.dtypes ++ [dt] }, st.g.length)
+  | _, _, _ => none
+
+/-- `t.grad` (the property getter): `None` when there is no buffer (inner `none`), else a NEW plain tensor
+    around the buffer (does not require grad, no history).  Outer `none` = no such tensor. -/
+def gradTensor (st : TState α) (i : Nat) : Option (Option (TState α × Nat)) :=
+  match st.g[i]?, st.dtypes[i]? with
+  | some n, some dt =>
+    match n.grad with
+    | some g => (mkTensor st g dt false [] none).map some
+    | none => some none
+  | _, _ => none
+
 /-- `t.backward(grad)` under the current modes.  The result is `none` when the call raises; the
     shape check of the gradient happens after the traversal (as in the code), so the buffers the
     traversal zero-initialised stay initialised even when the call is then rejected. -/
